@@ -21,7 +21,9 @@ def align_scenario(sb, sc, names, via, threads=1):
             vlib.write_fasta(fa, s)
             fas.append(fa)
         rc, so, se = vlib.ska_cli(["align", "--min-freq", "1", "--threads", str(threads)] + fas)
+        paths = {"paths": [list(f) for f in fas], "name_chars": [list(n) for n in names]}
     else:
+        paths = {}
         e = sb.build("x", samples, names, k, True, threads=threads)
         if not e.get("ok"):
             return {"ev": "snpalign", "ep": sb.ep, "stateful": True, "ctx": ctx, "ok": False, "names": [], "seqs": [], "via": via}
@@ -32,7 +34,9 @@ def align_scenario(sb, sc, names, via, threads=1):
     nm, seqs = vlib.parse_fasta_text(so.decode())
     if not seqs:
         seqs = ["" for _ in nm]
-    return {"ev": "snpalign", "ep": sb.ep, "stateful": True, "ctx": ctx, "ok": True, "names": nm, "seqs": [b(s) for s in seqs], "via": via}
+    ev = {"ev": "snpalign", "ep": sb.ep, "stateful": True, "ctx": ctx, "ok": True, "names": nm, "seqs": [b(s) for s in seqs], "via": via}
+    ev.update(paths)
+    return ev
 
 
 def columns_ok(ev):
@@ -91,7 +95,10 @@ def run(run, tier, seed):
             if sc is None:
                 continue
             sb.reset()
-            ev = align_scenario(sb, sc, ["a%d_%d" % (ci, i) for i in range(ns)], "fastas" if (k == 17 and ci % 8 == 0) else "skf",
+            via = "fastas" if (k == 17 and ci % 8 == 0) else "skf"
+            # sequence files given directly are named after the file stem; stems with dots, as assemblies often have
+            nm_of = (lambda i: "iso%d.%d%s" % (ci, i, ".asm" if i % 2 else "")) if via == "fastas" else (lambda i: "a%d_%d" % (ci, i))
+            ev = align_scenario(sb, sc, [nm_of(i) for i in range(ns)], via,
                                 threads=rng.choice([1, 2]))
             run.evaluations += 1
             if not sc["pre_strict"]:
